@@ -46,8 +46,15 @@ def gen_formula(rng, nv, d, wild):
             return g.pred(1)
         ch = ['not', 'and', 'or', 'implies'] * 3 + ['ev', 'alw', 'once', 'hist'] * 2 + ['evt', 'alwt', 'oncet', 'histt'] * 3 + ['prev', 'sprev', 'next', 'snext', 'rise', 'fall']
         if wild:
-            ch += ['iff', 'xor', 'since', 'untilt']
+            ch += ['iff', 'xor', 'since', 'untilt', 'predT']
         op = rng.choice(ch)
+        if op == 'predT':
+            # a temporal operator used as a sliding minimum / maximum inside a comparison
+            b, e = g.bounds()
+            t = (rng.choice(['alwt', 'histt', 'oncet', 'evt']), b, e, ('var', rng.randrange(nv)))
+            if rng.random() < 0.4:
+                t = ('a2', rng.choice(['sub', 'add']), ('var', rng.randrange(nv)), t)
+            return ('pred', rng.choice(['geq', 'leq', 'lt', 'gt']), t, ('const', rng.randint(-2, 3)))
         if op in fml.UN:
             return (op, go(d - 1))
         if op in fml.BIN:
@@ -68,8 +75,21 @@ def spec_text(c):
         bound = lambda b, e: '[%dms,%dms]' % (b * c['period_ms'], e * c['period_ms'])
     for k, f in enumerate(fs):
         name = 'out' if k == len(fs) - 1 else 'as%d' % (k + 1)
-        lines.append('%s = %s' % (name, fml.to_text(f, bound)))
-    return ';\n'.join(lines) + (';' if len(fs) > 1 else ''), ['out' if k == len(fs) - 1 else 'as%d' % (k + 1) for k in range(len(fs))]
+        t = fml.to_text(f, bound)
+        if name == 'out' and c.get('ref') and len(fs) > 1:
+            # the reported assertion refers to the first named sub-specification
+            t = '((as1) %s (%s))' % (c['ref'], t)
+        lines.append('%s = %s' % (name, t))
+    # the specification is the last assertion (the one evaluate() reports); the earlier ones are named sub-specifications
+    return ';\n'.join(lines) + (';' if len(fs) > 1 else ''), ['out']
+
+
+def top(c):
+    """the reported assertion with the reference to a sub-specification inlined"""
+    fs = c['fs']
+    if c.get('ref') and len(fs) > 1:
+        return (c['ref'], fs[0], fs[-1])
+    return fs[-1]
 
 
 def dataset(c, cols):
@@ -140,7 +160,7 @@ class C20(Check):
     PID = 'C20'
     SHRINK_BUDGET = 120
     RULE = ('seeded random discrete-time offline specifications of the explainable fragment (Boolean/temporal structure over predicates: not/and/or/implies, '
-            '(bounded) eventually/always/once/historically, prev/next, rise/fall; 1-2 assertions) plus a wild stream (iff/xor over composite operands, unsupported since/until) '
+            '(bounded) eventually/always/once/historically, prev/next, rise/fall; 1-2 assertions: the specification is the last one, which may refer to the first as a named sub-specification, or leave it unreferenced) plus a wild stream (iff/xor over composite operands, temporal operators below comparisons, unsupported since/until) '
             'x traces of 1-8 samples over -4..6; per violated case the positions explain() did not report are re-assigned (flip, +9, -9, 0, random) and '
             'evaluate() must stay negative at time 0; the reported table must equal the model Explain.explain (sufficiency proved in Props/C20.v); a satisfied '
             'specification must report nothing, also when the same object was violated on earlier data; non-trivial = violated with >= 1 unreported position; distinct by (spec, trace)')
@@ -180,6 +200,10 @@ class C20(Check):
             # known finding: iff/xor over composite operands (the polarity of the operand is not what the explainer assumes)
             (('iff', ('and', X0, Y0), R), [[1], [1], [-1]]),
             (('not', ('xor', ('and', X0, Y0), R)), [[1], [1], [-1]]),
+            # known finding: a temporal operator below a comparison / arithmetic (its samples are filtered by sign, which means nothing for a numeric operand)
+            (('pred', 'geq', ('alwt', 0, 2, ('var', 0)), ('const', 1)), [[2, 0, 2], [0, 0, 0], [0, 0, 0]]),
+            (('pred', 'leq', ('a2', 'sub', ('var', 0), ('alwt', 0, 2, ('var', 0))), ('const', 1)), [[5, 1, 3], [0, 0, 0], [0, 0, 0]]),
+            (('pred', 'lt', ('var', 1), ('hist', ('var', 0))), [[1, 1, 1], [3, 0, 0], [0, 0, 0]]),
             # a variable that occurs twice
             (('and', ('var', 0), ('a2', 'mul', ('var', 0), ('var', 0))), [[-2], [0], [0]]),
         ]
@@ -189,7 +213,7 @@ class C20(Check):
         for i in range(nrand):
             nv = rng.choice([1, 2, 2, 3])
             wild = rng.random() < 0.2
-            k = 2 if rng.random() < 0.2 else 1
+            k = 2 if rng.random() < 0.3 else 1
             items.append(([gen_formula(rng, nv, rng.choice([1, 2, 2, 3, 3, 4]), wild) for _ in range(k)], nv, wild))
         for (fs, nv, wild) in items:
             if any(fml.size(f) > 36 for f in fs):
@@ -201,6 +225,8 @@ class C20(Check):
                 c['period_ms'] = rng.choice([100, 500, 2000])
             if rng.random() < 0.2:
                 c['cols2'] = fml.gen_trace(rng, nv, n)
+            if len(fs) > 1 and rng.random() < 0.6:
+                c['ref'] = rng.choice(['and', 'or', 'implies'])
             cases.append(c)
         return cases
 
@@ -225,7 +251,7 @@ class C20(Check):
         return c
 
     def model_lines(self, c):
-        fs = '(' + ' '.join(fml.to_sx(f) for f in c['fs']) + ')'
+        fs = '(' + fml.to_sx(top(c)) + ')'
         out = ['(explain %s %d %s)' % (fs, c['n'], fml.trace_sx(c['cols']))]
         if 'cols2' in c:
             out.append('(explain %s %d %s)' % (fs, c['n'], fml.trace_sx(c['cols2'])))
@@ -341,7 +367,7 @@ class C20(Check):
         raise RuntimeError('C20 uses its own evaluate()')
 
     def signature(self, c, detail):
-        shapes = [shape(f) for f in c['fs']]
+        shapes = [shape(top(c))]
         sh = 'explainable'
         for s in ('iff_xor_composite', 'temporal_under_arithmetic'):
             if s in shapes:
@@ -349,13 +375,13 @@ class C20(Check):
         return {'shape': sh, 'kind': detail.get('kind') if isinstance(detail, dict) else None, 'ops': sorted(set().union(*[fml.ops(f) for f in c['fs']]))}
 
     def features(self, c):
-        return sorted(set().union(*[fml.ops(f) for f in c['fs']]))
+        return sorted(set().union(*[fml.ops(f) for f in c['fs']])) + (['named_subspec_referenced'] if c.get('ref') else []) + (['unreferenced_assertion'] if len(c['fs']) > 1 and not c.get('ref') else [])
 
     def nontrivial(self, c):
         return True
 
     def key(self, c):
-        return json.dumps([[fml.to_sx(f) for f in c['fs']], c['cols'], c.get('cols2')])
+        return json.dumps([[fml.to_sx(f) for f in c['fs']], c['cols'], c.get('cols2'), c.get('ref')])
 
     def describe(self, c):
         return {'spec': spec_text(c)[0], 'trace': dataset(c, c['cols'])}
